@@ -2340,7 +2340,9 @@ namespace bloch::compiler {
 
         if (auto var = dynamic_cast<VariableExpression*>(node.callee.get())) {
             MethodInfo* methodInfo = nullptr;
-            if (!isDeclared(var->name) && !isFunctionDeclared(var->name)) {
+            // a local variable of the same name does not hide the method for a call (it does not at
+            // run time either), so the access and static-context rules still apply
+            if (!isFunctionDeclared(var->name)) {
                 if (!m_currentClass.empty())
                     methodInfo = findMethodInHierarchy(combine(ValueType::Unknown, m_currentClass),
                                                        var->name, &actualTypes);
@@ -2355,6 +2357,10 @@ namespace bloch::compiler {
                                              "' cannot be called in a static context");
                     }
                 } else {
+                    if (isDeclared(var->name)) {
+                        throw BlochError(ErrorCategory::Semantic, node.line, node.column,
+                                         "'" + var->name + "' is a variable and cannot be called");
+                    }
                     if (resolveField(var->name, var->line, var->column)) {
                         throw BlochError(ErrorCategory::Semantic, node.line, node.column,
                                          "'" + var->name + "' is a field and cannot be called");
